@@ -1,17 +1,1142 @@
-//! Engine `paths` — placeholder (not written yet).
+//! Engine `paths` (C17): the public lookup functions of `breakpad-symbols` against the Lean model
+//! `MdModel.Paths`, plus the property's own oracle on the implementation's answers: every relative
+//! path that is produced is genuinely relative (checked on the string, platform independent) and,
+//! joined onto a root with `std::path::Path` / onto a base URL with `url::Url`, stays under it.
+//!
+//! case lines (= model requests; strings are the hex of their UTF-8 bytes, `-` = empty):
+//!   paths <op> code:<hex> debug:<hex|none> did:<none|u:<hex16>:<age hex>|p:<hex4>:<age hex>> cid:<hex|none>
+//!         op ∈ sym bin extra codeinfo moz-sym moz-bin moz-extra
+//!   paths mozraw server:<hex>
+//!   paths join unix root:<hex> rel:<hex>
+//!   paths rooted rel:<hex>
+//!   paths url <sym|bin|extra|codeinfo> base:<hex> code:.. debug:.. did:.. cid:..
+//!                                    (the real HttpSymbolSupplier against a loopback server: path of the request)
+//!   paths urlref rel:<hex>           (oracle only: what the pre-fix `Url::join(rel)` would do — documentation)
+//!   paths lowercase-table            (oracle only: the fact the model's ASCII lower-casing rests on)
+//!   paths supplier                   (oracle only: SimpleSymbolSupplier over a temp dir with bait files)
+
 use crate::common::*;
+use breakpad_symbols::{
+    binary_lookup, breakpad_sym_lookup, code_info_breakpad_sym_lookup, extra_debuginfo_lookup, lookup,
+    moz_lookup, FileKind, FileLookup, HttpSymbolSupplier, SimpleModule, SimpleSymbolSupplier, SymbolSupplier,
+};
+use std::io::{Read, Write};
+use std::sync::{Arc, Mutex};
+use debugid::{CodeId, DebugId};
+use std::path::{Component, Path};
 
 pub struct Paths;
+
+const OPS: &[&str] = &["sym", "bin", "extra", "codeinfo", "moz-sym", "moz-bin", "moz-extra"];
+const ALPHABET: &[char] = &['a', '.', '/', '\\', ':', '\0', 'é'];
+
+fn hx(s: &str) -> String {
+    hex(s.as_bytes())
+}
+fn unhx(s: &str) -> Option<String> {
+    String::from_utf8(unhex(s)?).ok()
+}
+fn opt_unhx(s: &str) -> Option<Option<String>> {
+    if s == "none" {
+        Some(None)
+    } else {
+        unhx(s).map(Some)
+    }
+}
+
+#[derive(Clone, Debug, PartialEq)]
+enum Did {
+    None,
+    Uuid([u8; 16], u32),
+    Pdb20([u8; 4], u32),
+}
+
+impl Did {
+    fn render(&self) -> String {
+        match self {
+            Did::None => "none".into(),
+            Did::Uuid(b, a) => format!("u:{}:{:x}", hex(b), a),
+            Did::Pdb20(b, a) => format!("p:{}:{:x}", hex(b), a),
+        }
+    }
+    fn parse(s: &str) -> Option<Did> {
+        if s == "none" {
+            return Some(Did::None);
+        }
+        let p: Vec<&str> = s.split(':').collect();
+        if p.len() != 3 {
+            return None;
+        }
+        let b = unhex(p[1])?;
+        let a = u32::from_str_radix(p[2], 16).ok()?;
+        match p[0] {
+            "u" => Some(Did::Uuid(b.try_into().ok()?, a)),
+            "p" => Some(Did::Pdb20(b.try_into().ok()?, a)),
+            _ => None,
+        }
+    }
+    fn build(&self) -> Option<DebugId> {
+        match self {
+            Did::None => None,
+            Did::Uuid(b, a) => {
+                // from_guid_age swaps the first three GUID fields; pre-swap so that the UUID bytes are `b`
+                let g = [
+                    b[3], b[2], b[1], b[0], b[5], b[4], b[7], b[6], b[8], b[9], b[10], b[11], b[12], b[13],
+                    b[14], b[15],
+                ];
+                Some(DebugId::from_guid_age(&g, *a).expect("16 bytes"))
+            }
+            Did::Pdb20(b, a) => Some(DebugId::from_pdb20(u32::from_be_bytes(*b), *a)),
+        }
+    }
+}
+
+#[derive(Clone, Debug)]
+struct LookupCase {
+    op: String,
+    code: String,
+    debug: Option<String>,
+    did: Did,
+    cid: Option<String>,
+}
+
+impl LookupCase {
+    fn render(&self) -> String {
+        format!(
+            "paths {} code:{} debug:{} did:{} cid:{}",
+            self.op,
+            hx(&self.code),
+            self.debug.as_deref().map(hx).unwrap_or_else(|| "none".into()),
+            self.did.render(),
+            self.cid.as_deref().map(hx).unwrap_or_else(|| "none".into()),
+        )
+    }
+    fn parse(f: &[&str]) -> Option<LookupCase> {
+        if f.len() != 6 || !OPS.contains(&f[1]) {
+            return None;
+        }
+        Some(LookupCase {
+            op: f[1].to_string(),
+            code: unhx(f[2].strip_prefix("code:")?)?,
+            debug: opt_unhx(f[3].strip_prefix("debug:")?)?,
+            did: Did::parse(f[4].strip_prefix("did:")?)?,
+            cid: opt_unhx(f[5].strip_prefix("cid:")?)?,
+        })
+    }
+    fn module(&self) -> SimpleModule {
+        SimpleModule::from_basic_info(
+            self.debug.clone(),
+            self.did.build(),
+            Some(self.code.clone()),
+            self.cid.as_ref().map(|s| CodeId::new(s.clone())),
+        )
+    }
+}
+
+// ------------------------------------------------------------------------------------ the oracle
+
+fn is_sep(c: char) -> bool {
+    c == '/' || c == '\\'
+}
+
+/// The property's predicate, on the string alone (platform independent): why `rel` is not
+/// genuinely relative, if it is not.
+fn rooted_violations(rel: &str) -> Vec<&'static str> {
+    let mut v = vec![];
+    let cs: Vec<char> = rel.chars().collect();
+    if cs.is_empty() {
+        v.push("rel-empty");
+    }
+    if cs.len() >= 2 && is_sep(cs[0]) && is_sep(cs[1]) {
+        v.push("rel-unc-prefix");
+    } else if !cs.is_empty() && is_sep(cs[0]) {
+        v.push("rel-leading-separator");
+    }
+    if cs.len() >= 2 && cs[0].is_ascii_alphabetic() && cs[1] == ':' {
+        v.push("rel-drive-prefix");
+    }
+    if rel.split(is_sep).any(|c| c == "..") {
+        v.push("rel-not-rooted-dotdot");
+    }
+    v
+}
+fn rooted(rel: &str) -> bool {
+    rooted_violations(rel).is_empty()
+}
+
+const FS_ROOT: &str = "/srv/symbols/root";
+const URL_BASE: &str = "https://symbols.example/base/dir/";
+
+/// Join onto a root with the host's `Path` and walk the components: the result must keep the
+/// root as a prefix and never climb above it.
+fn fs_join_escapes(rel: &str) -> Option<String> {
+    let root = Path::new(FS_ROOT);
+    let joined = root.join(rel);
+    let mut rc = root.components();
+    let mut jc = joined.components();
+    for want in rc.by_ref() {
+        match jc.next() {
+            Some(got) if got == want => {}
+            other => return Some(format!("joined {:?}: root component {:?} became {:?}", joined, want, other)),
+        }
+    }
+    let mut depth: i64 = 0;
+    for c in jc {
+        match c {
+            Component::Normal(_) => depth += 1,
+            Component::CurDir => {}
+            Component::ParentDir => {
+                depth -= 1;
+                if depth < 0 {
+                    return Some(format!("joined {:?} climbs above the root", joined));
+                }
+            }
+            Component::RootDir | Component::Prefix(_) => {
+                return Some(format!("joined {:?} restarts at a root/prefix", joined))
+            }
+        }
+    }
+    None
+}
+
+/// Join onto a base URL exactly like http.rs does (`base_url.join(rel)`): (class, detail) if the
+/// result is not below the base.
+fn url_join_escapes(rel: &str) -> Option<(&'static str, String)> {
+    let base = url::Url::parse(URL_BASE).unwrap();
+    match base.join(rel) {
+        Err(_) => None, // the consumers map this to NotFound
+        Ok(u) => {
+            if u.scheme() != base.scheme() || u.host_str() != base.host_str() || u.port() != base.port() {
+                Some(("url-join-other-origin", format!("{} joined with {:?} = {}", URL_BASE, rel, u)))
+            } else if !u.path().starts_with(base.path()) {
+                Some(("url-join-escapes-base-path", format!("{} joined with {:?} = {}", URL_BASE, rel, u)))
+            } else {
+                None
+            }
+        }
+    }
+}
+
+/// Percent-decode an ASCII path segment.
+fn pct_decode(seg: &str) -> Vec<u8> {
+    let b = seg.as_bytes();
+    let mut out = vec![];
+    let mut i = 0;
+    while i < b.len() {
+        if b[i] == b'%' && i + 2 < b.len() {
+            let h = |c: u8| (c as char).to_digit(16);
+            if let (Some(x), Some(y)) = (h(b[i + 1]), h(b[i + 2])) {
+                out.push((x * 16 + y) as u8);
+                i += 3;
+                continue;
+            }
+        }
+        out.push(b[i]);
+        i += 1;
+    }
+    out
+}
+
+/// Run `f` against a loopback HTTP server that answers 404 to everything; returns the request
+/// targets (`/path?query`) it received, in order.
+fn with_server<F: FnOnce(&str)>(base_path: &str, f: F) -> Vec<String> {
+    let listener = std::net::TcpListener::bind("127.0.0.1:0").expect("bind loopback");
+    let port = listener.local_addr().unwrap().port();
+    let seen: Arc<Mutex<Vec<String>>> = Arc::new(Mutex::new(vec![]));
+    let seen2 = seen.clone();
+    let th = std::thread::spawn(move || {
+        for conn in listener.incoming() {
+            let Ok(mut conn) = conn else { break };
+            let _ = conn.set_read_timeout(Some(std::time::Duration::from_secs(5)));
+            let mut buf = vec![];
+            let mut tmp = [0u8; 4096];
+            while !buf.windows(4).any(|w| w == b"\r\n\r\n") {
+                match conn.read(&mut tmp) {
+                    Ok(0) | Err(_) => break,
+                    Ok(n) => buf.extend_from_slice(&tmp[..n]),
+                }
+            }
+            let head = String::from_utf8_lossy(&buf).to_string();
+            let line = head.lines().next().unwrap_or("").to_string();
+            let target = line.split(' ').nth(1).unwrap_or("").to_string();
+            let _ = conn.write_all(b"HTTP/1.1 404 Not Found\r\nContent-Length: 0\r\nConnection: close\r\n\r\n");
+            if target == "/__stop" {
+                break;
+            }
+            seen2.lock().unwrap().push(target);
+        }
+    });
+    let base = format!("http://127.0.0.1:{port}{base_path}");
+    f(&base);
+    if let Ok(mut c) = std::net::TcpStream::connect(("127.0.0.1", port)) {
+        let _ = c.write_all(b"GET /__stop HTTP/1.1\r\nHost: x\r\n\r\n");
+        let mut sink = vec![];
+        let _ = c.read_to_end(&mut sink);
+    }
+    let _ = th.join();
+    let v = seen.lock().unwrap().clone();
+    v
+}
+
+/// The consumers of `server_rel`: the real `HttpSymbolSupplier` is pointed at a loopback server
+/// below `base_path`; the path of the request it sends is the observation.
+fn exec_url(op: &str, base_path: &str, c: &LookupCase) -> ImplResult {
+    let mut res = ImplResult::default();
+    res.tags.push(format!("op:url-{op}"));
+    let m = c.module();
+    if op != "codeinfo" && (c.did == Did::None || c.debug.is_none()) {
+        // without debug info `locate_symbols` takes the code-info route (op `codeinfo`), and the
+        // file lookups have nothing to ask for
+        res.out = "none".into();
+        return res;
+    }
+    if op == "codeinfo" && (c.did != Did::None && c.debug.is_some()) {
+        res.out = "bad-op".into();
+        return res;
+    }
+    let expect_request = match op {
+        "sym" => breakpad_sym_lookup(&m).is_some(),
+        "bin" => binary_lookup(&m).is_some(),
+        "extra" => extra_debuginfo_lookup(&m).is_some(),
+        _ => code_info_breakpad_sym_lookup(&m).is_some(),
+    };
+    let r = catch(|| {
+        with_server(base_path, |base| {
+            let tmp = tempfile::tempdir().expect("tempdir");
+            let cache = tmp.path().join("cache");
+            let t2 = tmp.path().join("tmp");
+            std::fs::create_dir_all(&cache).unwrap();
+            std::fs::create_dir_all(&t2).unwrap();
+            let rt = tokio::runtime::Builder::new_current_thread().enable_all().build().unwrap();
+            rt.block_on(async {
+                let sup = HttpSymbolSupplier::new(
+                    vec![base.to_string()],
+                    cache.clone(),
+                    t2.clone(),
+                    vec![],
+                    std::time::Duration::from_secs(5),
+                );
+                match op {
+                    "sym" | "codeinfo" => {
+                        let _ = sup.locate_symbols(&m).await;
+                    }
+                    "bin" => {
+                        let _ = sup.locate_file(&m, FileKind::Binary).await;
+                    }
+                    _ => {
+                        let _ = sup.locate_file(&m, FileKind::ExtraDebugInfo).await;
+                    }
+                }
+            });
+            // nothing may have been written outside the cache/tmp directories (404: nothing at all)
+        })
+    });
+    match r {
+        Err(msg) => {
+            res.out = "PANIC".into();
+            res.oracle.push(("url-consumer-panics".into(), msg));
+        }
+        Ok(targets) => {
+            // `sym` with complete debug info sends exactly the symbol request; `codeinfo` cases have no
+            // debug info, so the only request is the code-info lookup; bin/extra: the fetch_lookup request
+            let first = targets.first().cloned();
+            match first {
+                None => {
+                    res.out = "none".into();
+                    if expect_request {
+                        // the lookup exists but no request reached the server's origin: either the join
+                        // refused it (model says `none` too) or it went somewhere else (model differs)
+                        res.tags.push("url:no-request".into());
+                    }
+                }
+                Some(t) => {
+                    let path = t.split(['?', '#']).next().unwrap_or("").to_string();
+                    res.out = format!("path:{}", hx(&path));
+                    res.nontrivial = true;
+                    let norm = if base_path.ends_with('/') { base_path.to_string() } else { format!("{base_path}/") };
+                    let dir = norm.as_str();
+                    match path.strip_prefix(dir) {
+                        None => res.oracle.push((
+                            "url-request-outside-base-path".into(),
+                            format!("base {base_path:?}, request {t:?}"),
+                        )),
+                        Some(tail) => {
+                            for seg in tail.split(['/', '\\']) {
+                                let d = pct_decode(seg);
+                                if d == b"." || d == b".." {
+                                    res.oracle.push((
+                                        "url-request-dot-segment".into(),
+                                        format!("base {base_path:?}, request {t:?}: segment {seg:?}"),
+                                    ));
+                                }
+                            }
+                            if tail.contains('\\') {
+                                res.oracle.push(("url-request-backslash".into(), format!("request {t:?}")));
+                            }
+                        }
+                    }
+                    if !expect_request {
+                        res.oracle.push(("url-request-without-lookup".into(), format!("request {t:?}")));
+                    }
+                }
+            }
+        }
+    }
+    res
+}
+
+/// Documentation of the repaired defect: what `Url::join(rel)` (the pre-fix consumer) does with a
+/// lookup path. Not an obligation of the current code; the result is only tagged.
+fn exec_urlref(rel: &str) -> ImplResult {
+    let mut res = ImplResult::default();
+    res.tags.push("op:urlref".into());
+    match url_join_escapes(rel) {
+        None => res.out = "inside-or-error".into(),
+        Some((class, d)) => {
+            res.out = format!("{class}");
+            res.tags.push(format!("old-url-join:{class}"));
+            let _ = d;
+        }
+    }
+    res.nontrivial = true;
+    res
+}
+
+fn check_rel(res: &mut ImplResult, which: &str, rel: &str, is_server: bool) {
+    for class in rooted_violations(rel) {
+        res.oracle.push((class.to_string(), format!("{which} = {rel:?}")));
+    }
+    if let Some(d) = fs_join_escapes(rel) {
+        res.oracle.push(("join-escapes-root".into(), format!("{which} = {rel:?}: {d}")));
+    }
+    let _ = is_server;
+}
+
+fn show_lookup(l: &FileLookup) -> String {
+    format!(
+        "cache:{} server:{} file:{} id:{} rooted:{},{}",
+        hx(&l.cache_rel),
+        hx(&l.server_rel),
+        hx(&l.debug_file),
+        hx(&l.debug_id),
+        rooted(&l.cache_rel) as u8,
+        rooted(&l.server_rel) as u8
+    )
+}
+
+fn name_tags(res: &mut ImplResult, which: &str, s: &str) {
+    let mut t = |x: &str| res.tags.push(format!("{which}:{x}"));
+    if s.is_empty() {
+        t("empty");
+    }
+    if s.contains('/') {
+        t("has-slash");
+    }
+    if s.contains('\\') {
+        t("has-backslash");
+    }
+    if s.split(is_sep).any(|c| c == "..") {
+        t("has-dotdot");
+    }
+    if s.contains(':') {
+        t("has-colon");
+    }
+    if s.contains('\0') {
+        t("has-nul");
+    }
+    if !s.is_ascii() {
+        t("non-ascii");
+    }
+    if s.ends_with(is_sep) {
+        t("trailing-sep");
+    }
+    let n = s.chars().count();
+    t(match n {
+        0..=4 => "len<=4",
+        5..=32 => "len<=32",
+        33..=256 => "len<=256",
+        _ => "len>256",
+    });
+}
+
+fn exec_lookup(c: &LookupCase) -> ImplResult {
+    let mut res = ImplResult::default();
+    res.tags.push(format!("op:{}", c.op));
+    name_tags(&mut res, "code", &c.code);
+    if let Some(d) = &c.debug {
+        name_tags(&mut res, "debug", d);
+    } else {
+        res.tags.push("debug:absent".into());
+    }
+    let m = c.module();
+    let kind = |s: &str| match s {
+        "sym" => FileKind::BreakpadSym,
+        "bin" => FileKind::Binary,
+        _ => FileKind::ExtraDebugInfo,
+    };
+    let r = catch(|| -> String {
+        match c.op.as_str() {
+            "codeinfo" => match code_info_breakpad_sym_lookup(&m) {
+                None => "none".into(),
+                Some(rel) => format!("rel:{} rooted:{}", hx(&rel), rooted(&rel) as u8),
+            },
+            "sym" | "bin" | "extra" => {
+                // `lookup` dispatches to the three functions; both entry points must agree
+                let via_lookup = lookup(&m, kind(&c.op));
+                let direct = match c.op.as_str() {
+                    "sym" => breakpad_sym_lookup(&m),
+                    "bin" => binary_lookup(&m),
+                    _ => extra_debuginfo_lookup(&m),
+                };
+                let a = via_lookup.as_ref().map(show_lookup).unwrap_or_else(|| "none".into());
+                let b = direct.as_ref().map(show_lookup).unwrap_or_else(|| "none".into());
+                if a != b {
+                    format!("lookup-dispatch-differs {a} | {b}")
+                } else {
+                    a
+                }
+            }
+            _ => match lookup(&m, kind(&c.op[4..])) {
+                None => "none".into(),
+                Some(l) => show_lookup(&moz_lookup(l)),
+            },
+        }
+    });
+    match r {
+        Err(msg) => {
+            res.out = "PANIC".into();
+            res.oracle.push(("lookup-panics".into(), msg));
+            res.tags.push("result:panic".into());
+        }
+        Ok(out) => {
+            res.tags.push(if out == "none" { "result:none".into() } else { "result:some".into() });
+            // the oracle, on the implementation's own output
+            let get = |key: &str| -> Option<String> {
+                out.split(' ').find_map(|f| f.strip_prefix(key)).and_then(unhx)
+            };
+            if out != "none" {
+                if c.op == "codeinfo" {
+                    if let Some(rel) = get("rel:") {
+                        check_rel(&mut res, "code-info rel", &rel, true);
+                    }
+                } else {
+                    if let Some(rel) = get("cache:") {
+                        check_rel(&mut res, "cache_rel", &rel, false);
+                    }
+                    if let Some(rel) = get("server:") {
+                        check_rel(&mut res, "server_rel", &rel, true);
+                    }
+                }
+            }
+            res.nontrivial = out != "none"
+                || (c.did != Did::None && c.debug.as_deref().is_some_and(|d| !d.is_empty()))
+                || (c.cid.is_some() && !c.code.is_empty());
+            res.out = out;
+        }
+    }
+    res
+}
+
+/// Unicode lower-casing yields one of `p d b l` only for those letters and their ASCII capitals,
+/// and no character lower-cases to several characters containing one of them.
+fn exec_lowercase_table() -> ImplResult {
+    let mut res = ImplResult::default();
+    let mut n = 0u32;
+    for cp in 0..=0x10FFFFu32 {
+        let Some(c) = char::from_u32(cp) else { continue };
+        n += 1;
+        let low: Vec<char> = c.to_lowercase().collect();
+        let s: String = c.to_string();
+        let low_s: String = s.to_lowercase();
+        let hits = low.iter().any(|l| "pdbl".contains(*l)) || low_s.chars().any(|l| "pdbl".contains(l));
+        let ascii = "pdblPDBL".contains(c);
+        if hits != ascii || (ascii && (low.len() != 1 || low[0] != c.to_ascii_lowercase())) {
+            res.oracle.push((
+                "lowercase-model-assumption".into(),
+                format!("U+{cp:04X} lower-cases to {low:?}"),
+            ));
+        }
+    }
+    res.out = format!("checked:{n}");
+    res.nontrivial = true;
+    res.tags.push("op:lowercase-table".into());
+    res
+}
+
+/// The simplest consumer: `SimpleSymbolSupplier::locate_file` joins `cache_rel` onto each symbol
+/// directory. Bait files are planted OUTSIDE the symbol directory where the pre-fix paths pointed;
+/// whatever is found must lie inside the symbol directory.
+fn exec_supplier() -> ImplResult {
+    let mut res = ImplResult::default();
+    res.tags.push("op:supplier".into());
+    let r = catch(|| -> Vec<(String, String)> {
+        let mut bad = vec![];
+        let tmp = tempfile::tempdir().expect("tempdir");
+        let symdir = tmp.path().join("sym");
+        std::fs::create_dir_all(&symdir).unwrap();
+        let did = Did::Uuid([0xab; 16], 1).build().unwrap();
+        let id = did.breakpad().to_string();
+        // bait outside: <tmp>/<id>/{.sym,...sym,..sym,x} and <tmp>/evil/<id>/evil.sym
+        let outside = tmp.path().join(&id);
+        std::fs::create_dir_all(&outside).unwrap();
+        for f in [".sym", "...sym", "..sym", "..", "x", "sym"] {
+            let _ = std::fs::write(outside.join(f), b"MODULE bait\n");
+        }
+        let evil = tmp.path().join("evil").join(&id);
+        std::fs::create_dir_all(&evil).unwrap();
+        std::fs::write(evil.join("evil.sym"), b"MODULE bait\n").unwrap();
+        // a legitimate file inside
+        let good = symdir.join("good.pdb").join(&id);
+        std::fs::create_dir_all(&good).unwrap();
+        std::fs::write(good.join("good.sym"), b"MODULE good\n").unwrap();
+        // "sym/<id>" also exists as a directory inside, so that `x/../<id>` style paths resolve
+        std::fs::create_dir_all(symdir.join("d")).unwrap();
+        let supplier = SimpleSymbolSupplier::new(vec![symdir.clone()]);
+        let rt = tokio::runtime::Builder::new_current_thread().build().unwrap();
+        let canon_root = symdir.canonicalize().unwrap();
+        let mut found_good = false;
+        let names = [
+            "good.pdb", "c:\\dir\\good.pdb", "..", "", "a/", "/", "foo/..", "d/..", "d\\..", ".", "../evil",
+            "..\\evil", "../evil/evil", "..\\evil\\evil", "../evil.pdb", "\\", "\\\\", "//", "C:", "C:..",
+            "x/.", "x\\.", "...", "d/../..", "..%2f", "d/", "d\\",
+        ];
+        for name in names {
+            for kind in [FileKind::BreakpadSym, FileKind::Binary, FileKind::ExtraDebugInfo] {
+                let m = SimpleModule::from_basic_info(
+                    Some(name.to_string()),
+                    Some(did),
+                    Some(name.to_string()),
+                    Some(CodeId::new("abcd".into())),
+                );
+                if let Ok(p) = rt.block_on(supplier.locate_file(&m, kind)) {
+                    let canon = p.canonicalize().unwrap_or(p.clone());
+                    if !canon.starts_with(&canon_root) {
+                        bad.push((
+                            "supplier-finds-file-outside-symbol-dir".to_string(),
+                            format!("name {name:?} kind {kind:?}: {p:?}"),
+                        ));
+                    } else if name.ends_with("good.pdb") {
+                        found_good = true;
+                    }
+                }
+            }
+        }
+        if !found_good {
+            bad.push(("supplier-selfcheck".into(), "the legitimate file was not found".into()));
+        }
+        bad
+    });
+    match r {
+        Ok(bad) => {
+            res.out = "ok".into();
+            res.oracle = bad;
+        }
+        Err(msg) => {
+            res.out = "PANIC".into();
+            res.oracle.push(("supplier-panics".into(), msg));
+        }
+    }
+    res.nontrivial = true;
+    res
+}
+
+fn exec_join(root: &str, rel: &str) -> ImplResult {
+    let mut res = ImplResult::default();
+    res.tags.push("op:join".into());
+    let rootp = Path::new(root);
+    let joined = rootp.join(rel);
+    let js = joined.to_str().unwrap_or("<non-utf8>").to_string();
+    let norm = |p: &Path| -> Vec<String> {
+        p.components()
+            .filter_map(|c| match c {
+                Component::Normal(s) => Some(s.to_string_lossy().into_owned()),
+                Component::ParentDir => Some("..".into()),
+                _ => None,
+            })
+            .collect()
+    };
+    let rc = norm(rootp);
+    let jc = norm(&joined);
+    let mut inside = !Path::new(rel).has_root() && jc.len() >= rc.len() && jc[..rc.len()] == rc[..];
+    if inside {
+        let mut depth = 0i64;
+        for c in &jc[rc.len()..] {
+            if c == ".." {
+                depth -= 1;
+                if depth < 0 {
+                    inside = false;
+                    break;
+                }
+            } else {
+                depth += 1;
+            }
+        }
+    }
+    res.out = format!("joined:{} inside:{}", hx(&js), inside as u8);
+    // the property's corollary, on std alone: a rooted rel stays inside
+    if rooted(rel) && !inside {
+        res.oracle.push(("rooted-rel-join-escapes".into(), format!("{root:?} join {rel:?} = {js:?}")));
+    }
+    res.nontrivial = !rel.is_empty();
+    res
+}
+
+fn all_strings(alphabet: &[char], max_len: usize) -> Vec<String> {
+    let mut out = vec![String::new()];
+    let mut frontier = vec![String::new()];
+    for _ in 0..max_len {
+        let mut next = vec![];
+        for s in &frontier {
+            for c in alphabet {
+                let mut t = s.clone();
+                t.push(*c);
+                next.push(t);
+            }
+        }
+        out.extend(next.iter().cloned());
+        frontier = next;
+    }
+    out
+}
+
+const TOKENS: &[&str] = &[
+    "/", "\\", "..", ".", "...", "C:", "c:", "Z:", "\\\\", "//", "\\\\?\\", "\\\\.\\", "a", "b", "foo", "bar.pdb",
+    "x.PDB", "lib.so", "k.dll", "K.DLL", ".pdb", ".dll", "pdb", "é", "\0", " ", "\t", "\n", "%2e", "%2E%2e", "%2f",
+    "%5c", "http:", "https:", "file:", "javascript:", "?", "#", "@", ":", "::", "ü", "日本", "\u{212A}", "\u{130}",
+    "\u{202e}", "\u{feff}", "𝒳", "~", "$", "*", "|", "<", ">", "\"", "CON", "NUL", "a.b.c", "..pdb", ".sym", "sym",
+];
+
+fn random_name(rng: &mut Rng, max_tokens: u64) -> String {
+    let n = rng.range(0, max_tokens);
+    let mut s = String::new();
+    for _ in 0..n {
+        match rng.below(10) {
+            0 => {
+                // an arbitrary scalar value
+                loop {
+                    if let Some(c) = char::from_u32(rng.below(0x110000) as u32) {
+                        s.push(c);
+                        break;
+                    }
+                }
+            }
+            1 => s.push(*rng.pick(ALPHABET)),
+            2 => s.push((rng.range(0x20, 0x7e) as u8) as char),
+            _ => s.push_str(*rng.pick(TOKENS)),
+        }
+    }
+    s
+}
+
+fn random_did(rng: &mut Rng) -> Did {
+    match rng.below(12) {
+        0 => Did::None,
+        1 => Did::Uuid([0; 16], 0),
+        2 => Did::Uuid([0xff; 16], u32::MAX),
+        3 => Did::Pdb20([0; 4], 0),
+        4 => Did::Pdb20([0xff; 4], u32::MAX),
+        5 | 6 => {
+            let mut b = [0u8; 4];
+            for x in b.iter_mut() {
+                *x = rng.next() as u8;
+            }
+            Did::Pdb20(b, if rng.chance(1, 2) { rng.below(16) as u32 } else { rng.next() as u32 })
+        }
+        _ => {
+            let mut b = [0u8; 16];
+            for x in b.iter_mut() {
+                *x = rng.next() as u8;
+            }
+            Did::Uuid(b, if rng.chance(1, 2) { rng.below(16) as u32 } else { rng.next() as u32 })
+        }
+    }
+}
+
+fn random_cid(rng: &mut Rng, long: bool) -> Option<String> {
+    match rng.below(10) {
+        0 => None,
+        1 => Some(String::new()),
+        2 => Some("zz../..\\".into()), // retains nothing
+        3 => Some("5A0B1C2D1f000".into()),
+        4 => Some(random_name(rng, 6)),
+        5 if long => {
+            let n = rng.range(100, 3000);
+            Some((0..n).map(|_| *rng.pick(&['0', '9', 'a', 'F', 'g', '/', '.'])).collect())
+        }
+        _ => {
+            let n = rng.range(1, 40);
+            Some((0..n).map(|_| *rng.pick(&['0', '1', '9', 'a', 'f', 'A', 'F', 'c', 'E'])).collect())
+        }
+    }
+}
+
+const D_UUID: Did = Did::Uuid(
+    [0x00, 0x11, 0x22, 0x33, 0x44, 0x55, 0x66, 0x77, 0x88, 0x99, 0xaa, 0xbb, 0xcc, 0xdd, 0xee, 0xff],
+    0xa,
+);
 
 impl Engine for Paths {
     fn name(&self) -> &'static str {
         "paths"
     }
     fn rule(&self) -> String {
-        "not implemented".into()
+        "every string of length <= 3 (quick) / <= 4 (thorough) over {a . / \\ : NUL e-acute} as debug_file and as \
+         code_file through all 7 lookup entry points (sym bin extra codeinfo moz-sym moz-bin moz-extra), all PAIRS of \
+         such strings (length <= 3) through binary_lookup; extension-directed names over {. p d b l P D B L a}; random \
+         long names from separator/dot/drive/UNC/percent/scheme/NUL/non-ASCII tokens with random DebugId (uuid and \
+         pdb20, boundary ages) and raw CodeId strings of any length; Path::join and the rooted predicate themselves \
+         on every small string; the Unicode lower-casing table; SimpleSymbolSupplier over a temp dir with bait files. \
+         non-trivial: the lookup produced a path, or was refused because of the file name (not because an id is absent)"
+            .into()
     }
-    fn generate(&self, _tier: Tier, _rng: &mut Rng, _emit: &mut dyn FnMut(String)) {}
-    fn exec(&self, _case: &str) -> ImplResult {
-        ImplResult::default()
+    fn exhaustive_part(&self) -> Option<String> {
+        Some(
+            "all strings up to the tier's length bound over the 7-letter alphabet, for debug_file and code_file \
+             separately through every entry point and jointly (length <= 3) through binary_lookup; rooted/join on the same strings"
+                .into(),
+        )
+    }
+
+    fn generate(&self, tier: Tier, rng: &mut Rng, emit: &mut dyn FnMut(String)) {
+        let thorough = tier == Tier::Thorough;
+        emit("paths lowercase-table".into());
+        emit("paths supplier".into());
+        let small = all_strings(ALPHABET, if thorough { 4 } else { 3 });
+        let small3 = all_strings(ALPHABET, 3);
+        let small2 = all_strings(ALPHABET, 2);
+        // (1) every small string as debug_file / code_file through every entry point
+        for s in &small {
+            for op in OPS {
+                let c = match *op {
+                    "codeinfo" => LookupCase {
+                        op: op.to_string(),
+                        code: s.clone(),
+                        debug: None,
+                        did: Did::None,
+                        cid: Some("5A0B1C2D1f000".into()),
+                    },
+                    "bin" | "moz-bin" => LookupCase {
+                        op: op.to_string(),
+                        code: s.clone(),
+                        debug: Some("d.pdb".into()),
+                        did: D_UUID,
+                        cid: Some("ab12".into()),
+                    },
+                    _ => LookupCase {
+                        op: op.to_string(),
+                        code: "c.dll".into(),
+                        debug: Some(s.clone()),
+                        did: D_UUID,
+                        cid: None,
+                    },
+                };
+                emit(c.render());
+            }
+            // the debug side of binary_lookup
+            emit(
+                LookupCase { op: "bin".into(), code: "c.dll".into(), debug: Some(s.clone()), did: D_UUID, cid: Some("".into()) }
+                    .render(),
+            );
+            emit(format!("paths rooted rel:{}", hx(s)));
+            emit(format!("paths mozraw server:{}", hx(s)));
+        }
+        // (2) all pairs through binary_lookup (and its moz variant on the smaller square)
+        let pairs = if thorough { &small3 } else { &small3 };
+        for a in pairs {
+            for b in pairs {
+                emit(
+                    LookupCase { op: "bin".into(), code: a.clone(), debug: Some(b.clone()), did: D_UUID, cid: Some("f".into()) }
+                        .render(),
+                );
+            }
+        }
+        let mozpairs = if thorough { &small3 } else { &small2 };
+        for a in mozpairs {
+            for b in mozpairs {
+                emit(
+                    LookupCase {
+                        op: "moz-bin".into(),
+                        code: a.clone(),
+                        debug: Some(b.clone()),
+                        did: Did::Pdb20([1, 2, 3, 4], 0),
+                        cid: Some("".into()),
+                    }
+                    .render(),
+                );
+            }
+        }
+        // (3) absent pieces
+        for op in OPS {
+            for (debug, did, cid) in [
+                (None, D_UUID, Some("ab".to_string())),
+                (Some("a.pdb".to_string()), Did::None, Some("ab".to_string())),
+                (Some("a.pdb".to_string()), D_UUID, None),
+                (Some("".to_string()), D_UUID, Some("ab".to_string())),
+            ] {
+                for code in ["", "a.dll"] {
+                    emit(LookupCase { op: op.to_string(), code: code.into(), debug: debug.clone(), did: did.clone(), cid: cid.clone() }.render());
+                }
+            }
+        }
+        // (4) extension handling: every string of length <= 4 (5 thorough) over a dotted alphabet, plus directed
+        let ext = all_strings(&['.', 'p', 'd', 'b', 'P', 'a'], if thorough { 5 } else { 4 });
+        for s in &ext {
+            emit(LookupCase { op: "sym".into(), code: "".into(), debug: Some(s.clone()), did: D_UUID, cid: None }.render());
+        }
+        let ext2 = all_strings(&['.', 'd', 'l', 'L', 'D'], if thorough { 5 } else { 4 });
+        for s in &ext2 {
+            emit(LookupCase { op: "codeinfo".into(), code: s.clone(), debug: None, did: Did::None, cid: Some("1".into()) }.render());
+        }
+        for s in [
+            "a.pdb", "a.PDB", "a.PdB", "a.pdb.pdb", ".pdb", "pdb", "a.pdb.", "a..pdb", "a.pdbx", "a.xpdb", "a.\u{212A}db",
+            "a.p\u{130}db", "a.dll", "A.DLL", "a.dLl", "a.dll.dll", ".dll", "dll", "a.d\u{131}l", "a.so", "a.so.1", "a.ΠDB",
+            "é.pdb", "\0.pdb", "a.pdb\0",
+        ] {
+            for op in OPS {
+                emit(
+                    LookupCase { op: op.to_string(), code: s.into(), debug: Some(s.into()), did: D_UUID, cid: Some("Ab9".into()) }
+                        .render(),
+                );
+            }
+        }
+        // (5) Path::join itself (Unix flavour of the model against std) on every small string
+        for root in ["/srv/symbols/root", "/srv/symbols/root/", "", "rel/root", "/", "a\\b", "."] {
+            for s in if thorough { &small } else { &small3 } {
+                emit(format!("paths join unix root:{} rel:{}", hx(root), hx(s)));
+            }
+        }
+        // (5b) the HTTP consumer: directed hazards of URL-reference parsing, every string of length <= 2, random
+        let hazards = [
+            "a.pdb", "aa:", "http:evil.com", "https:evil.com", "\0", " ", " x", "x ", ".\t.", "\t", "%2e%2e", ".%2E", "%2e",
+            "a?b", "a#b", "?", "#", "..?x", "a%20b", "é", "日本.pdb", "a b", "a:b", "C:", "@", "a@b:c", "~", "*", "|", "<>",
+            "\"", "\u{7f}", "\u{80}", "\u{feff}", "a;b=c", "[", "]", "^", "`", "{}", "+", "'", "x.dll", "X.DLL", "..", ".",
+            "", "a/", "\\", "a\\b", "...", ".. ", " ..", ".\n.", "\r", "%", "%%", "%2", "%zz", "%2F", "%5c..",
+        ];
+        let url_case = |op: &str, base: &str, c: &LookupCase| -> String {
+            let l = c.render();
+            let rest = l.splitn(3, ' ').nth(2).unwrap().to_string();
+            format!("paths url {op} base:{} {rest}", hx(base))
+        };
+        for h in hazards {
+            for base in ["/base/dir/", "/", "/base/file"] {
+                for op in ["sym", "bin", "extra", "codeinfo"] {
+                    let c = match op {
+                        "codeinfo" => LookupCase { op: op.into(), code: h.into(), debug: None, did: Did::None, cid: Some("5A0B1C2D1f000".into()) },
+                        "bin" => LookupCase { op: op.into(), code: h.into(), debug: Some("d.pdb".into()), did: D_UUID, cid: Some("".into()) },
+                        _ => LookupCase { op: op.into(), code: "c.dll".into(), debug: Some(h.into()), did: D_UUID, cid: Some("ab".into()) },
+                    };
+                    emit(url_case(op, base, &c));
+                }
+            }
+            emit(format!("paths urlref rel:{}", hx(&format!("{h}/ID/{h}.sym"))));
+            emit(format!("paths urlref rel:{}", hx(&format!("{h}//{h}"))));
+        }
+        let url_alpha: &[char] = &['a', '.', ':', '\0', 'é', '%', '\t', ' ', '?', '2', 'e'];
+        for s in all_strings(url_alpha, if thorough { 3 } else { 2 }) {
+            let c = LookupCase { op: "extra".into(), code: "c".into(), debug: Some(s.clone()), did: Did::Pdb20([1, 2, 3, 4], 1), cid: None };
+            emit(url_case("extra", "/base/dir/", &c));
+            let c = LookupCase { op: "bin".into(), code: s.clone(), debug: Some("d".into()), did: Did::Pdb20([1, 2, 3, 4], 1), cid: Some("".into()) };
+            emit(url_case("bin", "/b/", &c));
+        }
+        for i in 0..(if thorough { 4000 } else { 400 }) {
+            let op = *rng.pick(&["sym", "bin", "extra", "codeinfo"]);
+            let name = random_name(rng, if i % 10 == 0 { 60 } else { 5 });
+            let other = random_name(rng, 4);
+            let c = match op {
+                "codeinfo" => LookupCase { op: op.into(), code: name, debug: None, did: Did::None, cid: random_cid(rng, false).or(Some("1".into())) },
+                "bin" => LookupCase { op: op.into(), code: name, debug: Some(other), did: D_UUID, cid: random_cid(rng, false).or(Some("".into())) },
+                _ => {
+                    let mut did = random_did(rng);
+                    if did == Did::None {
+                        did = D_UUID;
+                    }
+                    LookupCase { op: op.into(), code: other, debug: Some(name), did, cid: random_cid(rng, false) }
+                }
+            };
+            let base = *rng.pick(&["/base/dir/", "/", "/x/y", "/a%20b/"]);
+            emit(url_case(op, base, &c));
+        }
+        // the join function of the model on its own (no implementation counterpart is public): covered by `url` above
+
+        // (6) random long names and identifiers
+        let n = if thorough { 400_000 } else { 40_000 };
+        for i in 0..n {
+            let max_tokens = match i % 10 {
+                0 => {
+                    if thorough {
+                        2000
+                    } else {
+                        300
+                    }
+                }
+                1 | 2 => 40,
+                _ => 8,
+            };
+            let op = rng.pick(OPS).to_string();
+            let code = if rng.chance(1, 8) { String::new() } else { random_name(rng, max_tokens) };
+            let debug = if rng.chance(1, 12) { None } else { Some(random_name(rng, max_tokens)) };
+            let mut did = random_did(rng);
+            let mut cid = random_cid(rng, i % 50 == 0);
+            // mostly present identifiers, otherwise everything is `none`
+            if did == Did::None && rng.chance(3, 4) {
+                did = D_UUID;
+            }
+            if cid.is_none() && rng.chance(3, 4) {
+                cid = Some("0Af".into());
+            }
+            emit(LookupCase { op, code, debug, did, cid }.render());
+            if i % 8 == 0 {
+                let r = random_name(rng, 6);
+                emit(format!("paths rooted rel:{}", hx(&r)));
+                emit(format!("paths join unix root:{} rel:{}", hx(*rng.pick(&["/r", "/r/", "", "x/y"])), hx(&r)));
+                emit(format!("paths mozraw server:{}", hx(&r)));
+            }
+        }
+    }
+
+    fn model_request(&self, case: &str) -> Option<String> {
+        if case == "paths lowercase-table" || case == "paths supplier" || case.starts_with("paths urlref ") {
+            None
+        } else if case.starts_with("paths url ") {
+            // `HttpSymbolSupplier::new` appends `/` to a base URL that does not end with one
+            let f: Vec<&str> = case.split(' ').collect();
+            let base = f.get(3).and_then(|b| b.strip_prefix("base:")).and_then(unhx)?;
+            if base.ends_with('/') {
+                Some(case.to_string())
+            } else {
+                let mut g: Vec<String> = f.iter().map(|x| x.to_string()).collect();
+                g[3] = format!("base:{}", hx(&format!("{base}/")));
+                Some(g.join(" "))
+            }
+        } else {
+            Some(case.to_string())
+        }
+    }
+
+    fn exec(&self, case: &str) -> ImplResult {
+        let f: Vec<&str> = case.split(' ').filter(|s| !s.is_empty()).collect();
+        let mut bad = ImplResult::default();
+        bad.out = "bad-op".into();
+        if f.len() < 2 || f[0] != "paths" {
+            return bad;
+        }
+        match f[1] {
+            "url" if f.len() == 8 => {
+                let Some(base) = f[3].strip_prefix("base:").and_then(unhx) else { return bad };
+                let mut g: Vec<&str> = vec![f[0], f[2]];
+                g.extend(&f[4..]);
+                if !["sym", "bin", "extra", "codeinfo"].contains(&f[2]) {
+                    return bad;
+                }
+                match LookupCase::parse(&g) {
+                    Some(c) => exec_url(f[2], &base, &c),
+                    None => bad,
+                }
+            }
+            "urlref" if f.len() == 3 => {
+                let Some(s) = f[2].strip_prefix("rel:").and_then(unhx) else { return bad };
+                exec_urlref(&s)
+            }
+            "lowercase-table" if f.len() == 2 => exec_lowercase_table(),
+            "supplier" if f.len() == 2 => exec_supplier(),
+            "mozraw" if f.len() == 3 => {
+                let Some(s) = f[2].strip_prefix("server:").and_then(unhx) else { return bad };
+                let mut res = ImplResult::default();
+                res.tags.push("op:mozraw".into());
+                let l = FileLookup { debug_id: String::new(), debug_file: String::new(), cache_rel: String::new(), server_rel: s.clone() };
+                res.out = match catch(|| moz_lookup(l)) {
+                    Ok(l) => format!("server:{}", hx(&l.server_rel)),
+                    Err(_) => "PANIC".into(), // documented: pop().unwrap() on an empty server_rel
+                };
+                res.nontrivial = !s.is_empty();
+                res
+            }
+            "rooted" if f.len() == 3 => {
+                let Some(s) = f[2].strip_prefix("rel:").and_then(unhx) else { return bad };
+                let mut res = ImplResult::default();
+                res.tags.push("op:rooted".into());
+                res.out = format!("rooted:{}", rooted(&s) as u8);
+                // the string predicate and the host's Path agree in the direction the property needs
+                if rooted(&s) {
+                    if let Some(d) = fs_join_escapes(&s) {
+                        res.oracle.push(("rooted-rel-join-escapes".into(), format!("{s:?}: {d}")));
+                    }
+                }
+                res.nontrivial = !s.is_empty();
+                res
+            }
+            "join" if f.len() == 5 && f[2] == "unix" => {
+                let (Some(root), Some(rel)) =
+                    (f[3].strip_prefix("root:").and_then(unhx), f[4].strip_prefix("rel:").and_then(unhx))
+                else {
+                    return bad;
+                };
+                exec_join(&root, &rel)
+            }
+            _ => match LookupCase::parse(&f) {
+                Some(c) => exec_lookup(&c),
+                None => bad,
+            },
+        }
+    }
+
+    fn shrink(&self, case: &str, still_fails: &dyn Fn(&str) -> bool) -> String {
+        let f: Vec<&str> = case.split(' ').filter(|s| !s.is_empty()).collect();
+        let Some(mut c) = LookupCase::parse(&f) else { return case.to_string() };
+        let del_one = |s: &str| -> Vec<String> {
+            let cs: Vec<char> = s.chars().collect();
+            let mut out = vec![];
+            // halves first, then single characters
+            if cs.len() > 3 {
+                out.push(cs[..cs.len() / 2].iter().collect());
+                out.push(cs[cs.len() / 2..].iter().collect());
+            }
+            for i in 0..cs.len() {
+                let mut t = cs.clone();
+                t.remove(i);
+                out.push(t.into_iter().collect());
+            }
+            out
+        };
+        let mut progress = true;
+        while progress {
+            progress = false;
+            for cand in del_one(&c.code) {
+                let t = LookupCase { code: cand, ..c.clone() };
+                if still_fails(&t.render()) {
+                    c = t;
+                    progress = true;
+                    break;
+                }
+            }
+            if let Some(d) = c.debug.clone() {
+                for cand in del_one(&d) {
+                    let t = LookupCase { debug: Some(cand), ..c.clone() };
+                    if still_fails(&t.render()) {
+                        c = t;
+                        progress = true;
+                        break;
+                    }
+                }
+            }
+            if let Some(d) = c.cid.clone() {
+                for cand in del_one(&d) {
+                    let t = LookupCase { cid: Some(cand), ..c.clone() };
+                    if still_fails(&t.render()) {
+                        c = t;
+                        progress = true;
+                        break;
+                    }
+                }
+            }
+            if c.did != D_UUID && c.did != Did::None {
+                let t = LookupCase { did: D_UUID, ..c.clone() };
+                if still_fails(&t.render()) {
+                    c = t;
+                    progress = true;
+                }
+            }
+        }
+        c.render()
     }
 }
